@@ -58,7 +58,7 @@ type opSpec struct {
 	Op     string `json:"op"`               // Edit Scan Stage Supply Trans Poll
 	Kind   string `json:"kind,omitempty"`   // Edit: mod rm mk grow shrink src
 	Full   bool   `json:"full,omitempty"`   // Scan
-	Anc    string `json:"anc,omitempty"`    // Scan: nil prev src junk
+	Anc    string `json:"anc,omitempty"`    // Scan: nil prev src srcmid junk big
 	Cancel bool   `json:"cancel,omitempty"` // Scan, Trans: the remote call gets a cancelled context
 	Empty  bool   `json:"empty,omitempty"`  // Stage, Supply: an empty request
 }
@@ -574,6 +574,37 @@ func (w *world) settle(rec map[string]any) {
 	}
 }
 
+// restoreFromSource makes both mirrored roots a copy of the source tree (same
+// bytes, same modes, the same forced modification time on both).
+func (w *world) restoreFromSource() {
+	w.clock++
+	t := time.Unix(1500000000+w.clock*7, 0)
+	filepath.Walk(w.rootS, func(p string, fi os.FileInfo, err error) error {
+		if err != nil {
+			return nil
+		}
+		rel, _ := filepath.Rel(w.rootS, p)
+		for _, root := range []string{w.rootL, w.rootR} {
+			dst := filepath.Join(root, rel)
+			switch {
+			case fi.IsDir():
+				os.MkdirAll(dst, 0o755)
+			case fi.Mode()&os.ModeSymlink != 0:
+				if target, err := os.Readlink(p); err == nil {
+					os.Symlink(target, dst)
+				}
+			case fi.Mode().IsRegular():
+				if b, err := os.ReadFile(p); err == nil {
+					os.WriteFile(dst, b, fi.Mode().Perm())
+					os.Chmod(dst, fi.Mode().Perm())
+					os.Chtimes(dst, t, t)
+				}
+			}
+		}
+		return nil
+	})
+}
+
 func (w *world) doEdit(op opSpec, rec map[string]any) {
 	r := w.rng
 	rec["kind"] = op.Kind
@@ -603,7 +634,11 @@ func (w *world) doEdit(op opSpec, rec map[string]any) {
 	case "mk":
 		os.RemoveAll(w.rootL)
 		os.RemoveAll(w.rootR)
-		if r.Intn(6) == 0 {
+		if w.cs.Bulk > 0 && r.Intn(4) > 0 {
+			// the roots come into being with (a copy of) the source's content,
+			// i.e. with content that shares rsync blocks with a source-derived ancestor
+			w.restoreFromSource()
+		} else if r.Intn(6) == 0 {
 			// the root as a regular file
 			w.clock++
 			c := w.contentBytes(w.fresh())
@@ -628,8 +663,12 @@ func (w *world) doEdit(op opSpec, rec map[string]any) {
 		if !w.rootThere {
 			os.RemoveAll(w.rootL)
 			os.RemoveAll(w.rootR)
-			os.Mkdir(w.rootL, 0o755)
-			os.Mkdir(w.rootR, 0o755)
+			if w.cs.Bulk > 0 {
+				w.restoreFromSource()
+			} else {
+				os.Mkdir(w.rootL, 0o755)
+				os.Mkdir(w.rootR, 0o755)
+			}
 			w.rootThere = true
 		}
 		n := 8
@@ -766,6 +805,52 @@ func (w *world) junkTree() *core.Entry {
 	return &core.Entry{Kind: core.EntryKind_Directory, Contents: map[string]*core.Entry{"jd": {Kind: core.EntryKind_Directory, Contents: c}}}
 }
 
+// alteredInTheMiddle returns a copy of e in which the digests of the middle third
+// of the files (in path order) are different ones: the serialisation has the same
+// length and the same blocks at both ends, other blocks in the middle.
+func alteredInTheMiddle(e *core.Entry) *core.Entry {
+	c := e.Copy(core.EntryCopyBehaviorDeep)
+	type ref struct {
+		path string
+		e    *core.Entry
+	}
+	var files []ref
+	var walk func(p string, x *core.Entry)
+	walk = func(p string, x *core.Entry) {
+		if x == nil {
+			return
+		}
+		if x.Kind == core.EntryKind_File {
+			files = append(files, ref{p, x})
+		}
+		for n, ch := range x.Contents {
+			walk(p+"/"+n, ch)
+		}
+	}
+	walk("", c)
+	sort.Slice(files, func(i, j int) bool { return files[i].path < files[j].path })
+	for i := len(files) / 3; i < 2*len(files)/3 || (i == len(files)/3 && i < len(files)); i++ {
+		d := append([]byte{}, files[i].e.Digest...)
+		for k := range d {
+			d[k] ^= 0xa5
+		}
+		files[i].e.Digest = d
+	}
+	return c
+}
+
+// bigTree is a large tree that has nothing to do with the roots.
+func (w *world) bigTree() *core.Entry {
+	c := map[string]*core.Entry{}
+	n := 140 + w.rng.Intn(60)
+	for i := 0; i < n; i++ {
+		d := make([]byte, 20)
+		w.rng.Read(d)
+		c[fmt.Sprintf("big%03d", i)] = &core.Entry{Kind: core.EntryKind_File, Digest: d}
+	}
+	return &core.Entry{Kind: core.EntryKind_Directory, Contents: map[string]*core.Entry{"bigdir": {Kind: core.EntryKind_Directory, Contents: c}}}
+}
+
 func (w *world) scanSource() {
 	var snap *core.Snapshot
 	var err error
@@ -787,8 +872,21 @@ func (w *world) doScan(op opSpec, rec map[string]any) {
 		if w.srcSnap != nil {
 			anc = w.srcSnap.Content
 		}
+	case "srcmid":
+		w.scanSource()
+		if w.srcSnap != nil && w.srcSnap.Content != nil {
+			anc = alteredInTheMiddle(w.srcSnap.Content)
+		}
 	case "junk":
 		anc = w.junkTree()
+	case "big":
+		anc = w.bigTree()
+	}
+	// the size of the baseline this ancestor stands for (the client serialises it the same way)
+	if b, err := (proto.MarshalOptions{Deterministic: true}).Marshal(&core.Snapshot{Content: anc, PreservesExecutability: true}); err == nil {
+		rec["ancbytes"] = len(b)
+	} else {
+		rec["ancbytes"] = -1
 	}
 	w.observeDuplicates()
 	rec["full"] = op.Full
